@@ -17,7 +17,8 @@ LEVEL = 'model_checking'
 
 DESCR = {'UTIM': 'Unix Time', 'DATE': 'Date', 'TIME': 'Time', 'WAC': 'Wits Activity Code', 'BDIA': 'Bit Diameter',
          'NPEN': 'n-Pentane', 'MDIA': 'Mud  Density   In (avg)', 'ZZZZ': 'never declared'}
-UNITS = {'UTIM': 'sec', 'DATE': 'ddmmyy', 'TIME': 'hhmmss', 'WAC': 'unitless', 'BDIA': 'inch', 'NPEN': 'ppm', 'MDIA': 'g/cc'}
+# ordinary numeric channels may share their units with the time columns (a lag time in sec): only the NAME makes a column a time
+UNITS = {'UTIM': 'sec', 'DATE': 'ddmmyy', 'TIME': 'hhmmss', 'WAC': 'sec', 'BDIA': 'inch', 'NPEN': 'hhmmss', 'MDIA': 'g/cc'}
 MONTHS = ['Jan', 'Feb', 'Mar', 'Apr', 'May', 'Jun', 'Jul', 'Aug', 'Sep', 'Oct', 'Nov', 'Dec']
 
 
